@@ -90,13 +90,10 @@ theorem views_agree_conc (st0 : St) (hi : Inv H st0) (ops : List Op) (acts : Lis
   let h := run_inv H acts _ (start_inv H st0 ops hi)
   ⟨views_of_inv H _ h.inv, h.inv⟩
 
-/-- file clause of `views_agree_conc`: in every interleaving, at quiescence (every call returned, nothing
-pending, saver idle) the content the manager last synchronised with the store file decodes to exactly the
-listed set — no acknowledged change can be left without a save. (About `cachedContent`, i.e. what the
-manager last read or wrote; the bytes on disk differ from it only through somebody else's edit, or through
-a save that lands between a reload's read of the file and its critical section — the model has that
-schedule, and then the next reload sees a changed file.) -/
-theorem file_tracks_cache_conc (st0 : St) (hi : Inv H st0) (hs : Synced st0) (ops : List Op) (acts : List Act) :
+/-- file clause of `views_agree_conc`, about `cachedContent`: in every interleaving — external edits of the store
+file included — at quiescence (every call returned, nothing pending, saver idle) the content the manager last
+read or wrote decodes to exactly the listed set: no acknowledged change can be left without a save. -/
+theorem synced_content_tracks_cache_conc (st0 : St) (hi : Inv H st0) (hs : Synced st0) (ops : List Op) (acts : List Act) :
     let s := (Sys.start st0 ops).run H acts
     s.quiescent → Represents s.st.cachedContent s.st.cache := by
   intro s hq
@@ -104,6 +101,44 @@ theorem file_tracks_cache_conc (st0 : St) (hi : Inv H st0) (hs : Synced st0) (op
   refine hf ?_ hq.2.1 hq.2.2
   intro t ht
   simp [owes, hq.1 t ht]
+
+/-- the bytes on disk: from ANY reachable moment (after any interleaving, external edits included) at which the
+file is what the manager last read or wrote — e.g. right after a reload took an edit, or after a save — it stays
+so through every continuation in which nobody else edits the file, whatever calls, reloads and saves interleave. -/
+theorem file_eq_synced_stable (st0 : St) (hi : Inv H st0) (ops : List Op) (pre post : List Act)
+    (hne : ∀ a ∈ post, a.isEdit = false)
+    (he : ((Sys.start st0 ops).run H pre).st.file = ((Sys.start st0 ops).run H pre).st.cachedContent) :
+    let s := ((Sys.start st0 ops).run H pre).run H post
+    s.st.file = s.st.cachedContent :=
+  run_fileEq H post _ (run_inv H pre _ (start_inv H st0 ops hi)) hne he
+
+/-- `file_tracks_cache_conc`, about the FILE: start with file and manager in sync (as after registration or a
+save); in every interleaving of any number of calls, reloads and saver actions without foreign edits, at
+quiescence the store file decodes to exactly the listed set (and the accepted set is the listed set by
+`views_agree_conc`): the three views of the statement are the same. Depends on the regenerated `loadProg`
+reading the file inside the critical section (F23); `stale_reload_witness` shows it false for the old program. -/
+theorem file_tracks_cache_conc (st0 : St) (hi : Inv H st0) (hs : Synced st0) (hfile : st0.file = st0.cachedContent)
+    (ops : List Op) (acts : List Act) (hne : ∀ a ∈ acts, a.isEdit = false) :
+    let s := (Sys.start st0 ops).run H acts
+    s.quiescent → Represents s.st.file s.st.cache := by
+  intro s hq
+  have h1 := synced_content_tracks_cache_conc H st0 hi hs ops acts hq
+  have h2 : s.st.file = s.st.cachedContent := run_fileEq H acts _ (start_inv H st0 ops hi) hne hfile
+  rw [h2]; exact h1
+
+/-- with foreign edits: once a reload has taken the edited file (the file is then what the manager last read),
+and nobody edits it afterwards, the file again decodes to the listed set at quiescence. -/
+theorem file_tracks_cache_conc_after_edit (st0 : St) (hi : Inv H st0) (hs : Synced st0) (ops : List Op)
+    (pre post : List Act) (hne : ∀ a ∈ post, a.isEdit = false)
+    (he : ((Sys.start st0 ops).run H pre).st.file = ((Sys.start st0 ops).run H pre).st.cachedContent) :
+    let s := (Sys.start st0 ops).run H (pre ++ post)
+    s.quiescent → Represents s.st.file s.st.cache := by
+  intro s hq
+  have h1 := synced_content_tracks_cache_conc H st0 hi hs ops (pre ++ post) hq
+  have h2 : s.st.file = s.st.cachedContent := by
+    have := file_eq_synced_stable H st0 hi ops pre post hne he
+    simpa [s, Sys.run, List.foldl_append] using this
+  rw [h2]; exact h1
 
 /-- and whenever the saver runs with a save pending, what it writes represents the cache of that moment -/
 theorem saved_file_represents_cache_conc (st0 : St) (hi : Inv H st0) (ops : List Op) (acts : List Act) :
@@ -189,9 +224,9 @@ theorem duplicate_key_refused (st : St) (hi : Inv H st) (n n' : Name) (k : Key)
   have := hi.complete n' k hown
   simp [call, Op.thread, addProg, runThread, seg, runLocked, exec, touch, hn, hl, hnew, this]
 
-/-- steps that read or write the manager's maps / `cachedContent`, or publish to the live stores -/
+/-- steps that read the store file, read or write the manager's maps / `cachedContent`, or publish to the live stores -/
 def guarded : Step → Bool
-  | .guardAbsent | .loadUc | .guardHashFree | .cacheSet | .cacheUpdKey | .cacheDel | .lookupSet | .lookupDelOld
+  | .readFile | .guardAbsent | .loadUc | .guardHashFree | .cacheSet | .cacheUpdKey | .cacheDel | .lookupSet | .lookupDelOld
   | .lookupDelUc | .liveSet | .liveDelOldSet | .liveDelUc | .guardChanged | .guardChangedLoaded | .setCachedContent
   | .setLookup | .setCache | .liveReplaceTcpLocal | .liveReplaceUdpLocal | .liveReplaceTcpShared | .liveReplaceUdpShared => true
   | _ => false
@@ -205,7 +240,8 @@ def insideLock : Bool → List Step → Bool
     else (held || !guarded s) && insideLock held rest
 
 /-- the two regenerated facts of DESIGN §5 C08, read off the programs: the live stores are updated, and the
-reloaded map is cloned, before the manager lock is released — in all four operations. -/
+reloaded map is cloned, before the manager lock is released, and the store file is read after it is taken (F23)
+— in all four operations. -/
 theorem publish_inside_lock : progs.all (insideLock false) = true := by decide
 
 /-- add and update check the key's hash against the lookup map before they write it -/
@@ -237,6 +273,34 @@ example : ((Sys.start st3 [.add "d" ⟨4, 16⟩, .delete "a"]).run hId
     [.thread 0, .thread 1, .thread 0, .thread 1, .thread 0, .thread 1, .thread 0, .thread 0, .thread 1, .dequeue, .save]).quiescent := by
   unfold Sys.quiescent; decide
 
+/-! ### F23: the witness for the program that reads the file before taking the lock -/
+
+/-- `LoadFromFile` as it was before F23: `readFile` outside the critical section -/
+def loadProgReadOutside : List Step :=
+  [.readFile, .deferClose, .lock, .guardChangedLoaded, .decode, .guardDecodeOk, .buildMaps, .setCachedContent,
+   .setLookup, .setCache, .liveReplaceTcpLocal, .liveReplaceUdpLocal, .unlock, .ret]
+
+def k4 : Key := ⟨4, 16⟩
+
+/-- add d (acknowledged, save pending) ‖ reload with the old program: the reload reads the store file, then the
+saver writes the file with d, then the reload's critical section installs what it read -/
+def staleSys : Sys :=
+  Sys.run hId
+    { st := st3, threads := [(Op.add "d" k4).thread, { prog := loadProgReadOutside, regs := { name := "", key := noKey } }] }
+    [.thread 0, .thread 0, .thread 0, .thread 0, .thread 0,   -- add d: acknowledged, save queued
+     .thread 1, .thread 1,                                     -- reload: file read (without d)
+     .dequeue, .save,                                          -- saver: file and cachedContent now hold d
+     .thread 1, .thread 1]                                     -- reload: lock … unlock, return
+
+/-- with the read outside the lock the property fails in the model: both calls are acknowledged, the system
+is quiescent, nobody edited the file, yet d is unlisted and rejected while the store file holds d. -/
+theorem stale_reload_witness :
+    staleSys.quiescent ∧ staleSys.threads.map (·.res) = [some .ok, some .ok] ∧
+    find staleSys.st.cache "d" = none ∧
+    (∃ m, staleSys.st.tcp = some m ∧ handshake hId m k4 = none) ∧
+    (∃ l, decodeDoc staleSys.st.file = some l ∧ find l "d" = some k4) := by
+  refine ⟨by unfold Sys.quiescent; decide, by decide, by decide, ⟨_, rfl, by decide⟩, ⟨_, rfl, by decide⟩⟩
+
 end SSV.C08
 
 #print axioms SSV.C08.views_of_inv
@@ -246,7 +310,11 @@ end SSV.C08
 #print axioms SSV.C08.views_agree_seq
 #print axioms SSV.C08.file_tracks_cache_seq
 #print axioms SSV.C08.views_agree_conc
+#print axioms SSV.C08.synced_content_tracks_cache_conc
+#print axioms SSV.C08.file_eq_synced_stable
 #print axioms SSV.C08.file_tracks_cache_conc
+#print axioms SSV.C08.file_tracks_cache_conc_after_edit
+#print axioms SSV.C08.stale_reload_witness
 #print axioms SSV.C08.saved_file_represents_cache_conc
 #print axioms SSV.C08.segment_progress
 #print axioms SSV.C08.publish_inside_lock
